@@ -584,3 +584,55 @@ def r4_error_exits_poison(facts, rep):
             )
         results[fn] = all_ok
     return n
+
+
+def r6_completion_source(facts, rep):
+    """the I/O back-end reports `Ok(())` for a completion only on the arm where IoKind::get_result classified the
+    syscall result as IoKindResult::Ok, and an Err on the IoKindResult::Err arm: a failed page I/O cannot be
+    turned into a success where completions are produced."""
+    n = 0
+    adt = facts.adts.get("nomt::io::IoKindResult")
+    if adt is None:
+        raise CheckBroken("ANCHOR-MISSING type nomt::io::IoKindResult")
+    vidx = {v["name"]: str(i) for i, v in enumerate(adt["variants"])}
+    producers = []
+    for body in facts.bodies.values():
+        if body.crate != "nomt" or "::tests::" in body.id:
+            continue
+        for b in range(body.n):
+            for s in body.stmts(b):
+                if s["k"] == "assign" and s["rv"]["k"] == "agg" and s["rv"].get("name") == "nomt::io::CompleteIo":
+                    producers.append((body, b, s))
+    rep.floor("R6 CompleteIo construction sites", len(producers), 1)
+    for (body, b, s) in producers:
+        short = body.id.split("::", 1)[1]
+        fl = s["rv"]["fields"]
+        op = s["rv"]["ops"][fl.index("result")]
+        oks, errs = [], []
+        for r in trace(body, op):
+            if r.kind == "agg" and str(r.what) == "core::result::Result::Ok":
+                oks.append(r.bb)
+            elif r.kind == "agg" and str(r.what) == "core::result::Result::Err":
+                errs.append(r.bb)
+        # the classification switch
+        sws = []
+        for sb in range(body.n):
+            t = body.term(sb)
+            if t["k"] == "switch" and any(r.kind == "call" and r.what.endswith("IoKind::get_result") and "<discr>" in r.fields for r in trace(body, t["d"])):
+                sws.append((sb, t))
+        n += 1
+        if not rep.check(len(sws) == 1 and bool(oks), "R6", short, "classified-by-get_result", "the completion result built at %s is not derived from a match on IoKind::get_result" % s.get("ln"), site=s.get("ln"), detail="match on get_result at bb%s" % [x[0] for x in sws]):
+            continue
+        (sb, t) = sws[0]
+        edge = {v: tb for (v, tb) in t["vals"]}
+        ok_t = edge.get(vidx.get("Ok"))
+        err_t = edge.get(vidx.get("Err"))
+        for ob in oks:
+            n += 1
+            # dominance by the Ok arm's first block: every path that builds this Ok(()) took the Ok arm
+            ok = ok_t is not None and ok_t != t["else"] and list(edge.values()).count(ok_t) == 1 and body.dominates(ok_t, ob)
+            rep.check(ok, "R6", short, "Ok-only-on-Ok-arm", "a completion is reported as Ok(()) at a point that is not confined to the IoKindResult::Ok arm: a failed or short page I/O would be reported as success", site=s.get("ln"), detail="Ok(()) built only on the IoKindResult::Ok arm")
+        n += 1
+        ok = err_t is not None and any(body.dominates(err_t, eb) for eb in errs)
+        rep.check(ok, "R6", short, "Err-on-Err-arm", "the IoKindResult::Err arm does not produce an Err completion", site=s.get("ln"), detail="Err(os error) built on the IoKindResult::Err arm")
+    return n
